@@ -115,3 +115,70 @@ def eval_2d(groups: list[tuple[list[Any], list[Any] | None]]) -> dict[int, list[
             else:
                 listed[key].update(eval_1d(inner))
     return {k: None if k in everything else sorted(listed[k]) for k in sorted(listed)}
+
+
+# -- what reaches the socket (Linux SocketCAN ABI: linux/can.h, linux/can/isotp.h, linux/can/raw.h) ---------
+
+CAN_EFF_FLAG = 0x80000000
+CAN_SFF_MASK = 0x000007FF
+CAN_EFF_MASK = 0x1FFFFFFF
+SOL_CAN_BASE = 100
+SOL_CAN_RAW = SOL_CAN_BASE + 1  # CAN_RAW == 1
+SOL_CAN_ISOTP = SOL_CAN_BASE + 6  # CAN_ISOTP == 6
+CAN_RAW_FD_FRAMES = 5
+CAN_ISOTP_OPTS = 1
+CAN_ISOTP_LL_OPTS = 5
+ISOTP_FLAG = {"ext_address": 0x002, "tx_padding": 0x004, "rx_padding": 0x008, "rx_ext_address": 0x200}
+CANFD_MTU = 72
+
+
+def decode_isotp_opts(data: bytes) -> dict[str, int]:
+    """struct can_isotp_options { u32 flags; u32 frame_txtime; u8 ext_address, txpad, rxpad, rx_ext_address; }"""
+    import struct
+
+    flags, txtime, ext, txpad, rxpad, rxext = struct.unpack("@IIBBBB", data[:12])
+    return {"flags": flags, "frame_txtime": txtime, "ext_address": ext, "tx_padding": txpad, "rx_padding": rxpad, "rx_ext_address": rxext}
+
+
+def can_id_on_wire(can_id: int, extended: bool) -> int:
+    return (can_id & CAN_EFF_MASK) | CAN_EFF_FLAG if extended else can_id & CAN_SFF_MASK
+
+
+def isotp_wire_mismatches(iface: str, want: dict[str, Any], sock_log: list[tuple[Any, ...]]) -> list[tuple[str, str]]:
+    """compare the numeric settings of an isotp:// URI (``want``: field -> number | None = absent, booleans for
+    is_fd / is_extended) with what the transport did to its socket; returns [(field, what)]"""
+    import struct
+
+    out: list[tuple[str, str]] = []
+    opts = [e for e in sock_log if e[0] == "opt" and e[1] == SOL_CAN_ISOTP and e[2] == CAN_ISOTP_OPTS]
+    binds = [e for e in sock_log if e[0] == "bind"]
+    if len(opts) != 1 or not isinstance(opts[0][3], bytes | bytearray) or len(opts[0][3]) < 12:
+        return [("CAN_ISOTP_OPTS", f"expected exactly one setsockopt(SOL_CAN_ISOTP, CAN_ISOTP_OPTS, 12 bytes), saw {opts!r}")]
+    got = decode_isotp_opts(bytes(opts[0][3]))
+    for field, bit in ISOTP_FLAG.items():
+        present = want.get(field) is not None
+        if present and not got["flags"] & bit:
+            out.append((field, f"flag-not-set: URI says {field}={want[field]:#x} but flag {bit:#x} is clear (flags={got['flags']:#x})"))
+        elif not present and got["flags"] & bit:
+            out.append((field, f"flag-spurious: URI has no {field} but flag {bit:#x} is set"))
+        elif present and got[field] != want[field]:
+            out.append((field, f"wrong-value: URI says {field}={want[field]:#x}, socket option carries {got[field]:#x}"))
+    if got["frame_txtime"] != want["frame_txtime"]:
+        out.append(("frame_txtime", f"wrong-value: URI says {want['frame_txtime']}, socket option carries {got['frame_txtime']}"))
+    ll = [e for e in sock_log if e[0] == "opt" and e[1] == SOL_CAN_ISOTP and e[2] == CAN_ISOTP_LL_OPTS]
+    if want["is_fd"]:
+        if len(ll) != 1 or len(ll[0][3]) < 3:
+            out.append(("is_fd", f"wrong-value: is_fd=true but CAN_ISOTP_LL_OPTS set {len(ll)} times"))
+        else:
+            mtu, tx_dl, _flags = struct.unpack("@BBB", bytes(ll[0][3])[:3])
+            if mtu != CANFD_MTU:
+                out.append(("is_fd", f"wrong-value: is_fd=true but link layer mtu={mtu}"))
+            if tx_dl != want["tx_dl"]:
+                out.append(("tx_dl", f"wrong-value: URI says tx_dl={want['tx_dl']}, link layer option carries {tx_dl}"))
+    elif ll and struct.unpack("@BBB", bytes(ll[0][3])[:3])[0] == CANFD_MTU:
+        out.append(("is_fd", "wrong-value: is_fd=false but CAN FD link layer options are set"))
+    rx = can_id_on_wire(want["dst_addr"], want["is_extended"])
+    tx = can_id_on_wire(want["src_addr"], want["is_extended"])
+    if len(binds) != 1 or tuple(binds[0][1]) != (iface, rx, tx):
+        out.append(("bind", f"wrong-value: expected bind(({iface!r}, rx={rx:#x}, tx={tx:#x})), saw {[b[1] for b in binds]!r}"))
+    return out
